@@ -106,6 +106,29 @@ def _interleave_case(pair):
     return None
 
 
+def long_sentences():
+    Hh = "name a\nversion 1.0\n"
+    L_ = collections.OrderedDict()
+    for k in (60, 130, 300, 700):
+        L_["%d statements" % k] = Hh + "".join("Rgate(0.1) | %d\n" % (i % 7) for i in range(k))
+    L_["300 statements with several arguments"] = Hh + "".join("G(%d, 0.5*%d, k=[1, 2], l=-pi/2) | [%d, %d]\n" % (i, i, i, i + 1) for i in range(300))
+    L_["400 declarations"] = Hh + "".join("float x%d = %d/3+1\n" % (i, i) for i in range(400)) + "G(x7) | 0\n"
+    L_["150 loops"] = Hh + "".join("for int i in 0:%d\n    G(i) | i\n    H(i+1, k=i) | [i, i+1]\n" % (i % 5 + 1) for i in range(150))
+    for n_ in (18, 30):
+        L_["%dx%d array" % (n_, n_)] = Hh + "float array A =\n" + "".join("    " + ", ".join("%d.5" % (r_ * n_ + c_) for c_ in range(n_)) + "\n" for r_ in range(n_)) + "G(A) | 0\n"
+    L_["sum of 250 terms"] = Hh + "G(" + "+".join(["1"] * 250) + ") | 0\n"
+    L_["product of 300 factors"] = Hh + "float y = " + "*".join(["2", "0.5"] * 150) + "\nG(y) | 0\n"
+    L_["500 arguments"] = Hh + "G(" + ", ".join(str(i) for i in range(500)) + ") | 0\n"
+    L_["500 keyword arguments"] = Hh + "G(" + ", ".join("k%d=%d" % (i, i) for i in range(500)) + ") | 0\n"
+    L_["list of 500 elements"] = Hh + "G(k=[" + ", ".join(str(i) for i in range(500)) + "]) | 0\n"
+    L_["500 modes"] = Hh + "G | [" + ", ".join(str(i) for i in range(500)) + "]\n"
+    L_["80 nested brackets"] = Hh + "G(" + "(" * 80 + "1" + ")" * 80 + ") | 0\n"
+    L_["60 nested functions"] = Hh + "G(" + "sqrt(" * 60 + "2" + ")" * 60 + ") | 0\n"
+    L_["200 metadata options"] = "name a\nversion 1.0\ntarget g (" + ", ".join("o%d=%d" % (i, i) for i in range(200)) + ")\nG | 0\n"
+    L_["300 statements, last one broken"] = Hh + "".join("Rgate(0.1) | %d\n" % (i % 7) for i in range(299)) + "Rgate(0.1 | 0\n"
+    return L_
+
+
 def _parse_case(text):
     o = oracle()
     m = o.verdict(text)
@@ -452,6 +475,10 @@ def run(ctx):
                 t_ = sentences.to_text(cx[r][0] + sh[r] + cx[r][1])
                 cases.setdefault(ch + t_, ("prefix-character", r))
                 cases.setdefault(t_ + ch, ("suffix-character", r))
+    # LONG sentences: what a parser counts, caches or stacks up per statement / expression / row only shows on scripts far longer
+    # than any bounded sentence set - hundreds of statements, declarations, loops, array entries, arguments, modes, terms, brackets
+    for name_, text_ in long_sentences().items():
+        cases.setdefault(text_, ("long", name_))
     texts_e = sorted(cases)
     texts_e = common.shard(texts_e, ctx.seed)
     res = pool.pmap(_parse_case, texts_e, chunk=100)
